@@ -48,6 +48,8 @@ class C06(Base):
             yield c
         for c in resgen.errlist_cases(rng):
             yield c
+        for c in resgen.chain_cases(rng):
+            yield c
         for c in self.extremes(rng):
             yield c
         n = 2500 if tier == "quick" else 150000
